@@ -3,7 +3,7 @@ import SakuraVerif.Driver.Wire
 /-! Driver side of the lexer tie: prints the model's token list in the text form the harness uses
     for the real `Vec<Token>` (`tok_str` in harness/src/main.rs). -/
 namespace Sakura.Driver
-open Sakura.Lx
+open Sakura.Lx Sakura.Wire
 
 def ttName : TT → String
   | .lineNo => "LineNo" | .length => "Length" | .note => "Note" | .noteN => "NoteN" | .rest => "Rest"
@@ -49,6 +49,7 @@ def lexOp (src : String) : String :=
   | some o =>
     let t := " ".intercalate (o.toks.map tokStr)
     let lg := "\n".intercalate (errLines o.errs)
-    s!"toks={hex t.toUTF8.toList.map (·.toNat)} log={if lg.isEmpty then "~" else hex (lg.toUTF8.toList.map (·.toNat))}"
+    let bytes (x : String) : List Nat := x.toUTF8.toList.map (fun b => b.toNat)
+    "toks=" ++ hex (bytes t) ++ " log=" ++ hex (bytes lg)
 
 end Sakura.Driver
